@@ -50,8 +50,11 @@ pub proof fn lemma_split_inside_separator(a: Seq<u8>, b: Seq<u8>)
 
 //@ fn cln_plugin::codec::utf8
 //@ returns r
-//@ ensures#utf8
+//@ implicit [C06,C17]
+//@ ensures#utf8 [C17]
       match r { Ok(s) => utf8_spec(buf@) == Some(s@), Err(_) => utf8_spec(buf@) is None }
+//@ closure 0
+//@ cparams _e: ::core::str::Utf8Error
 //@ end
 
 //@ fn cln_plugin::codec::MultiLineCodec::decode
